@@ -165,3 +165,28 @@ func midpointConversions() []Expr {
 	}
 	return out
 }
+
+// midRangeProducts multiplies, in pairs and triples, operands in the middle of
+// the int64 range (around 2^31, 2^32, 2^33, 3e9, 5e9, written as literal, as sum
+// and as named or typed constant, never as shift): each is a native integer,
+// their products leave int64 and uint64 and may wrap to any sign.
+func midRangeProducts() []Expr {
+	ops := []string{"2147483647", "2147483648", "3000000000", "3037000499", "3037000500", "4294967295", "4294967296", "4294967297", "5000000000", "8589934592", "65536", "-4294967296", "-3037000500", "-5000000000", "(4294967295 + 1)", "(2147483647 + 1)", "uSqrt", "int64(4294967296)", "uint64(4294967296)", "1e9"}
+	it := []string{"int64", "uint64", "int", "float64"}
+	var out []Expr
+	for i, a := range ops {
+		for j, b := range ops {
+			e := Expr{Src: "(" + a + " * " + b + ")", Class: "num"}
+			if (i+j)%3 == 0 {
+				e.Typed, e.Sites = []string{it[(i+j)%4]}, []string{it[(i*j)%4]}
+			}
+			out = append(out, e)
+			if (i+j)%4 == 0 {
+				out = append(out, Expr{Src: "(" + a + " * " + b + " * " + a + ")", Class: "num"},
+					Expr{Src: "(" + a + "*" + b + " - " + b + "*" + a + " + 1)", Class: "num", Conv: []string{"int64"}},
+					Expr{Src: "((" + a + " + " + b + ") * (" + a + " - " + b + "))", Class: "num"})
+			}
+		}
+	}
+	return out
+}
